@@ -20,6 +20,10 @@ def obligations(tier):
         for sched in (["construct"], ["singles"], ["split"]):
             obs.append(Ob(f"fill/{tf}/n={n}/{sched[0]}", dict(tf=tf, n=n, sched=sched[0]), CFG, weight=n * 10,
                           budget_s=600 if tier == "quick" else 7200, max_paths=300000))
+    # the fill flag given on every public carrier: Indicator(timeframe, timeframe_fill), Hexital(timeframe, timeframe_fill),
+    # Hexital(timeframe_fill) whose member brings the timeframe
+    for tf in (["T5"] if tier == "quick" else ["T5", "H1", "D1"]):
+        obs.append(Ob(f"fill/{tf}/n={n}/api", dict(tf=tf, n=n, sched="api"), CFG, weight=n * 20, budget_s=600 if tier == "quick" else 7200, max_paths=300000))
     # gap filling together with a rolling lifespan window and multi-candle appends: the retained candles must be the
     # tail of the same contiguous filled series
     for tf in (["T5"] if tier == "quick" else ["T5", "H1"]):
@@ -74,13 +78,36 @@ def run(ctx, P):
     elif sched == "singles":
         runs.append(("singles", drive_manager(cs, tf, True, 0, [1] * n)))
         runs.append(("preload1+singles", drive_manager(cs, tf, True, 1, [1] * (n - 1))))
+    elif sched == "api":
+        from types import SimpleNamespace
+        _, _, Candle, _, Hexital = lib()
+        for feed in ("construction", "singles"):
+            pre = n if feed == "construction" else 0
+            src = clone(cs)
+            ind = build("SMA", dict(period=2), candles=src[:pre], timeframe=tf, timeframe_fill=True)
+            ind.calculate()
+            for c in src[pre:]:
+                ind.append(c)
+            runs.append((f"Indicator(timeframe,fill)/{feed}", SimpleNamespace(candles=ind.candles)))
+            src = clone(cs)
+            hx = Hexital("hx", src[:pre], [build("SMA", dict(period=2))], timeframe=tf, timeframe_fill=True)
+            hx.calculate()
+            for c in src[pre:]:
+                hx.append(c)
+            runs.append((f"Hexital(timeframe,fill)/{feed}", SimpleNamespace(candles=hx.candles())))
+            src = clone(cs)
+            hx = Hexital("hx", src[:pre], [build("SMA", dict(period=2), timeframe=tf)], timeframe_fill=True)
+            hx.calculate()
+            for c in src[pre:]:
+                hx.append(c)
+            runs.append((f"Hexital(fill)+member(timeframe)/{feed}", SimpleNamespace(candles=hx.candles(tf))))
     else:
         for k in range(1, n):
             runs.append((f"chunks[{k}+{n - k}]", drive_manager(cs, tf, True, 0, [k, n - k])))
     nofill = lib_view(ctx, drive_manager(cs, tf, False, n, []).candles)
     for label, m in runs:
         got = lib_view(ctx, m.candles)
-        if label == "construction" or label == "singles":
+        if label in ("construction", "singles", "Indicator(timeframe,fill)/construction"):
             ctx.observe("filled", got)
         for i in range(1, len(got)):
             ctx.require(f"{label}:contiguous", got[i]["ts"] - got[i - 1]["ts"] == tfs, f"labels {i - 1},{i} not exactly one timeframe apart")
